@@ -132,6 +132,17 @@ def unaryFn (f : String) : Option (Float → Float) :=
   | "arcsinh" => some Float.asinh | "arccosh" => some Float.acosh | "arctanh" => some Float.atanh
   | _ => none
 
+/-- op "derived": {"data": [Obs], "value": x, "grad": [x]} -> {"obs": Obs} | {"exc": text}: the model of
+    `derived_observable(..., man_grad=grad)` for a function whose central value is `value` (roots, integrals,
+    fits, matrix functions: every caller that supplies its own gradient). -/
+def opDerived (j : Json) : Except String Json := do
+  let data : List (Obs Float) ← get j "data"
+  let grad : List Float ← get j "grad"
+  let v : Float ← get j "value"
+  match derivedObs (fun _ => v) grad data covEqExact with
+  | .ok o => pure (obj [("obs", enc o)])
+  | .error e => pure (obj [("exc", .str (reprStr e))])
+
 /-- op "corr": {"method": m, "a": Corr, ...} on central values -/
 def opCorr (j : Json) : Except String Json := do
   let m : String ← get j "method"
@@ -314,6 +325,7 @@ def dispatch (op : String) (j : Json) : Except String Json :=
   | "fmt" => opFmt j
   | "wf" => opWf j
   | "combine" => opCombine j
+  | "derived" => opDerived j
   | "readfile" => opReadFile j
   | "resample" => opResample j
   | "schema" => opSchema j
